@@ -34,6 +34,8 @@ pub struct GenOpts {
     /// one case in eight with an implicit method integrates a stiff Van der Pol oscillator (mu 10..1000, forward,
     /// random start off the limit cycle, span up to 1.5 relaxation times)
     pub stiff_for_implicit: bool,
+    /// one case in seven with an implicit method sets min_step (1e-9 .. 1e-2 of the interval)
+    pub allow_min_step: bool,
     pub min_span: f64,
     pub max_span: f64,
 }
@@ -54,6 +56,7 @@ impl Default for GenOpts {
             allow_dense: true,
             bidirectional_problems: true,
             stiff_for_implicit: false,
+            allow_min_step: false,
             min_span: 0.05,
             max_span: 30.0,
         }
@@ -203,6 +206,9 @@ pub fn gen_case(rng: &mut Rng, g: &GenOpts) -> (Simple, Scn) {
             3 => 3.0 * span,
             _ => span * rng.range(0.02, 0.5),
         });
+    }
+    if g.allow_min_step && is_implicit(method) && rng.chance(0.15) {
+        scn.min_step = Some(span * rng.logu(1e-9, 1e-2));
     }
     if g.allow_max_steps && rng.chance(0.25) {
         scn.max_steps = Some(*rng.pick(&[1usize, 2, 3, 5, 10, 30, 100]));
